@@ -319,13 +319,30 @@ func filterKeys(ctx stick.Context, val stick.Value, args ...stick.Value) stick.V
 		keys := r.MapKeys()
 		res := make([]string, 0)
 		for _, k := range keys {
-			res = append(res, fmt.Sprintf("%v", k))
+			res = append(res, keyString(k))
 		}
 		sort.Strings(res)
 		return res
 	default:
 		return []string{}
 	}
+}
+
+// keyString returns the text the keys filter shows for a key of a map.
+func keyString(k reflect.Value) string {
+	for k.Kind() == reflect.Interface && !k.IsNil() {
+		k = k.Elem()
+	}
+	if k.Kind() == reflect.Ptr && !k.IsNil() && k.CanInterface() {
+		switch k.Interface().(type) {
+		case fmt.Stringer, error, fmt.Formatter:
+		default:
+			// fmt prints what such a key points to, and never comes back
+			// if that is a value which contains itself.
+			return fmt.Sprintf("%p", k.Interface())
+		}
+	}
+	return fmt.Sprintf("%v", k)
 }
 
 func filterLast(ctx stick.Context, val stick.Value, args ...stick.Value) stick.Value {
